@@ -484,3 +484,26 @@ Theorem C07_generated_model_run_seqs {F : Type} `{Num F} (m : @model F) (RS : Ty
 Proof. exact (gen_model_run_is_run_seqs m RS sel out0 XD FD OUT tdm fm X FB from stateful reset shift rs w xs fbs). Qed.
 
 Print Assumptions C07_generated_model_run_seqs.
+
+(* The step seq_op of the generated Model.run (the outer with_state(reset, stateful) around run_op with reset = False) IS
+   run_op m stateful reset from, the step of model/Mapping.v run_seqs, when the node ids are pairwise distinct (start_env composes,
+   restore_st is idempotent; both outcomes, every flag): the generated Model.run (gen/Gen_mrun2.v, regenerated on every run) IS
+   Mapping.run_seqs.  Environments are functions, so their equality uses functional extensionality (proofs/Gen_mrun2_seqs.v;
+   chain2_nodup there: a concrete two-node model meets the hypothesis). *)
+From RV Require Import model.Mapping proofs.Gen_mrun2_seqs.
+Theorem C07_generated_model_run_is_run_seqs {F : Type} `{Num F} (m : @model F) (RS : Type) (sel : RS -> @env F -> selstate (list F))
+    (out0 : node) (XD FD OUT : Type)
+    (tdm : XD -> FD -> option (list (list (nat -> option (list F))) * list (list (nat -> option (list F)))))
+    (fm : list (wlog (list F)) -> RS -> OUT) (X : XD) (FB : FD) from stateful reset shift rs (w : cworld) xs fbs :
+  NoDup (ids_of m) ->
+  tdm X FB = Some (xs, fbs) -> xs <> [] -> fbs <> [] ->
+  let '(w', r) := g_model_run m RS sel out0 XD FD OUT tdm fm X FB from stateful reset shift rs w in
+  let '(e', outs, ok) := run_seqs m stateful reset from (map (fun p => combine (fst p) (snd p)) (combine xs fbs)) (cur w) in
+  cur w' = e' /\ fbm w' = fbm w /\
+  match r with
+  | CtxPrelude.Ok o => ok = true /\ exists logs, o = fm logs rs /\ Forall2 (log_ok m RS sel out0 rs) logs outs
+  | CtxPrelude.Exc _ => ok = false
+  end.
+Proof. exact (gen_model_run_is_mapping_run_seqs m RS sel out0 XD FD OUT tdm fm X FB from stateful reset shift rs w xs fbs). Qed.
+
+Print Assumptions C07_generated_model_run_is_run_seqs.
